@@ -365,6 +365,10 @@ package transport
 //@   ensures ote.res == old(ote.res) - 1
 //@   ensures calls(wgDone) <= 1
 //@   ensures calls(ReserveNewQueryI) <= 1 && (calls(ReserveNewQueryI) == 1 ==> calls(wgDone) == 1 && callpos(wgDone, 0) > callpos(ReserveNewQueryI, 0))
+// a caller that gives up while the connection is still dialing hands its wait-group count back
+// (otherwise the first ReserveNewQuery after the dial waits for it for ever, holding the lock)
+//@   ensures[C07] calls(ctxCause) == 1 ==> calls(wgDone) == 1 && calls(ReserveNewQueryI) == 0
+//@   ensures[C07] calls(wgDone) == 0 ==> calls(ctxCause) == 0 && calls(ReserveNewQueryI) == 0 && err != nil
 //@ func (ote *lazyDnsConnEarlyReservedExchanger) ExchangeReserved$1 [C09]
 //@   requires ote != nil && ote.res >= 1
 //@   modifies ote.res
